@@ -62,10 +62,45 @@ var words = []string{"alpha", "beta", "Hello world", "it is", "a b", "x1", "42",
 
 func (g *gen) word() string { return words[g.r.Intn(len(words))] }
 
-// text with 0..2 holes
+// stmtSep: statements that write nothing, so that two holes are adjacent in the OUTPUT although
+// separated in the source
+func (g *gen) stmtSep() string {
+	return g.pick("{% if true %}{% end %}", "{% if false %}zz{% end %}", "{# c #}", "{% if true %}{% end if %}")
+}
+
+// holes: 2..3 holes of (mostly) different variables — adjacent, separated by a short literal, or
+// separated only by statements
+func (g *gen) holes(vars []string, lits ...string) string {
+	if len(lits) == 0 {
+		lits = []string{"-", "a", "/", "1"}
+	}
+	var b strings.Builder
+	n := 2 + g.r.Intn(2)
+	for i := 0; i < n; i++ {
+		if i > 0 {
+			switch g.r.Intn(5) {
+			case 0, 1:
+				g.feat("holes:adjacent")
+			case 2:
+				g.feat("holes:literal-between")
+				b.WriteString(lits[g.r.Intn(len(lits))])
+			default:
+				g.feat("holes:statement-between")
+				b.WriteString(g.stmtSep())
+			}
+		}
+		b.WriteString(g.hole(vars))
+	}
+	return b.String()
+}
+
+// text with 0..3 holes
 func (g *gen) text(vars []string, lits ...string) string {
 	if len(lits) == 0 {
 		lits = words
+	}
+	if g.r.Intn(4) == 0 {
+		return g.pick("", lits[g.r.Intn(len(lits))]) + g.holes(vars, lits...) + g.pick("", lits[g.r.Intn(len(lits))])
 	}
 	var b strings.Builder
 	n := 1 + g.r.Intn(3)
@@ -76,8 +111,11 @@ func (g *gen) text(vars []string, lits ...string) string {
 		default:
 			b.WriteString(g.hole(vars))
 		}
-		if g.r.Intn(3) == 0 {
+		switch g.r.Intn(6) {
+		case 0, 1:
 			b.WriteString(" ")
+		case 2:
+			b.WriteString(g.stmtSep())
 		}
 	}
 	return b.String()
@@ -214,7 +252,25 @@ func (g *gen) cssCode() string {
 
 func (g *gen) attr() string {
 	h := func() string { return g.hole(textVars) }
-	switch g.r.Intn(16) {
+	switch g.r.Intn(22) {
+	case 16:
+		g.feat("attr:unquoted-multi-hole")
+		return "\x01data-y=" + g.holes(textVars)
+	case 17:
+		g.feat("attr:url-unquoted-multi-hole")
+		return "\x01href=" + g.pick("", "", "/p/") + g.holes(textVars, "/", "?", "&amp;", "=", "#", "a")
+	case 18:
+		g.feat("attr:url-dq-multi-hole")
+		return `href="` + g.pick("", "", "/p/") + g.holes(textVars, "/", "?", "&amp;", "=", "#", "a", " ") + `"`
+	case 19:
+		g.feat("attr:url-sq-multi-hole")
+		return `src='` + g.pick("", "", "/p/") + g.holes(textVars, "/", "?", "&amp;", "=", "#", "a", " ") + `'`
+	case 20:
+		g.feat("attr:srcset-multi-hole")
+		return `srcset="` + g.holes(textVars, "/", ", ", " 1x, ", "?") + g.pick("", " 2x") + `"`
+	case 21:
+		g.feat("attr:sq-multi-hole")
+		return `title='` + g.holes(textVars) + `'`
 	case 0:
 		g.feat("attr:dq")
 		return `title="` + g.text(textVars) + `"`
